@@ -87,10 +87,15 @@ int aes_cbc_padding_decrypt(const AES_KEY *key, const uint8_t iv[16],
 		return -1;
 	}
 	if (inlen > 16) {
+		// save the chaining block first: out may be the same buffer as in
+		uint8_t last_iv[16];
+		memcpy(last_iv, in + inlen - 32, 16);
+		memcpy(block, in + inlen - 16, 16);
 		aes_cbc_decrypt(key, iv, in, inlen/16 - 1, out);
-		iv = in + inlen - 32;
+		aes_cbc_decrypt(key, last_iv, block, 1, block);
+	} else {
+		aes_cbc_decrypt(key, iv, in + inlen - 16, 1, block);
 	}
-	aes_cbc_decrypt(key, iv, in + inlen - 16, 1, block);
 	padding = block[15];
 	if (padding < 1 || padding > 16) {
 		error_print();
